@@ -367,19 +367,20 @@ func (b *bmcSys) check() {
 // ---------------------------------------------------------------------------
 
 type unroller struct {
-	b       *bmcSys
-	cur     map[*term.T]*term.T // state variable -> term at the current step
-	consts  map[*term.T]*term.T // never-written cells -> initial value
-	sch     []*term.T
-	k       int
-	stutter int
-	asserted []*term.T
+	b          *bmcSys
+	cur        map[*term.T]*term.T // state variable -> term at the current step
+	consts     map[*term.T]*term.T // never-written cells -> initial value
+	sch        []*term.T
+	exactWake  []*term.T
+	k          int
+	stutter    int
+	asserted   []*term.T
 	stepInputs [][]*term.T
-	finBad  map[string][]*term.T // label -> per-step "quiescent and final violated"
-	invBad  map[string][]*term.T
-	indep   [][2]int
+	finBad     map[string][]*term.T // label -> per-step "quiescent and final violated"
+	invBad     map[string][]*term.T
+	indep      [][2]int
 	pendingPOR bool
-	prevLive map[int]bool
+	prevLive   map[int]bool
 }
 
 func (u *unroller) at(t *term.T, extra map[*term.T]*term.T) *term.T {
@@ -635,6 +636,14 @@ func (b *bmcSys) unrollAndSolve() {
 				continue
 			}
 			assert(f.Implies(is, g))
+			if laxDelta != nil && t.clock && len(t.procs) == 1 && t.src[0].kind == opSleep && t.procs[0].sleep != nil {
+				// (preference used when a counterexample is minimised: a sleeper wakes
+				// exactly at its deadline, as it does under the replay's virtual clock)
+				u.exactWake = append(u.exactWake, f.Implies(is, sub(f.Eq(t.procs[0].sleep, b.now))))
+			} else if laxDelta != nil && t.clock && !t.env {
+				// (likewise: a library step that reads the clock is not delayed)
+				u.exactWake = append(u.exactWake, f.Implies(is, f.Eq(laxDelta, f.BVC(clockW, 0))))
+			}
 			if laxDelta != nil && !t.clock {
 				assert(f.Implies(is, f.Eq(laxDelta, f.BVC(clockW, 0))))
 			}
@@ -805,6 +814,12 @@ func (b *bmcSys) unrollAndSolve() {
 				}
 			}
 			bad = best
+			if len(u.exactWake) > 0 {
+				exact := f.And(append([]*term.T{bad}, u.exactWake...)...)
+				if rr, e2 := s.CheckWith(false, exact); e2 == nil && rr == smt.Sat {
+					bad = exact
+				}
+			}
 			if b.clock != 0 && b.now != nil && u.cur[b.now] != nil {
 				// ... and, under a virtual clock, one that takes little virtual time
 				for _, lim := range []uint64{1000, 1000000} {
@@ -848,20 +863,20 @@ func (b *bmcSys) unrollAndSolve() {
 	}
 	query("panic", u.cur[b.panicVar])
 	{
-	var ls []string
-	for l := range b.failVars {
-		ls = append(ls, l)
-	}
-	sort.Strings(ls)
-	for _, l := range ls {
-		query(l, u.cur[b.failVars[l]])
-	}
-	for l, bads := range u.invBad {
-		query(l, f.Or(bads...))
-	}
-	for l, bads := range u.finBad {
-		query(l, f.Or(bads...))
-	}
+		var ls []string
+		for l := range b.failVars {
+			ls = append(ls, l)
+		}
+		sort.Strings(ls)
+		for _, l := range ls {
+			query(l, u.cur[b.failVars[l]])
+		}
+		for l, bads := range u.invBad {
+			query(l, f.Or(bads...))
+		}
+		for l, bads := range u.finBad {
+			query(l, f.Or(bads...))
+		}
 	}
 witnesses:
 	// witnesses (vacuity): covers must be reachable, and so must a full run
